@@ -289,11 +289,62 @@ def _cmp_locals(fn, discr_op, truth):
     return None
 
 
+_RANGES = {"u8": (0, 2**8 - 1), "u16": (0, 2**16 - 1), "u32": (0, 2**32 - 1), "u64": (0, 2**64 - 1), "usize": (0, 2**64 - 1),
+           "i8": (-2**7, 2**7 - 1), "i16": (-2**15, 2**15 - 1), "i32": (-2**31, 2**31 - 1), "i64": (-2**63, 2**63 - 1), "isize": (-2**63, 2**63 - 1)}
+
+
+def valuesets(fn):
+    from .valueset import ValueSets
+    if getattr(fn, "_vs", None) is None:
+        fn._vs = ValueSets(fn)
+    return fn._vs
+
+
+def _discharge_by_valueset(fn, s):
+    vs = valuesets(fn)
+    ops = s.t["ops"]
+    vals = [vs.at_end(s.block, o) for o in ops]
+    if any(v is None or len(v) == 0 for v in vals):
+        return None
+    if s.what == "BoundsCheck":
+        ln, ix = vals
+        if min(ix) >= 0 and max(ix) < min(ln):
+            return "value sets: index in %s, length %s" % (sorted(ix), sorted(ln))
+        return None
+    if s.what.startswith("Overflow("):
+        op = s.what[len("Overflow("):-1]
+        ty = None
+        pl = ops[0].get("copy") or ops[0].get("move")
+        if pl and not pl["p"]:
+            ty = fn.locals[pl["l"]]
+        if ty is None:
+            pl = ops[1].get("copy") or ops[1].get("move")
+            if pl and not pl["p"]:
+                ty = fn.locals[pl["l"]]
+        if ty is None and "const" in ops[0]:
+            ty = ops[0]["const"].get("ty")
+        rng = _RANGES.get(ty)
+        if rng is None:
+            return None
+        res = []
+        for a in vals[0]:
+            for b in vals[1]:
+                res.append(a + b if op == "Add" else a - b if op == "Sub" else a * b if op == "Mul" else None)
+        if None in res:
+            return None
+        if min(res) >= rng[0] and max(res) <= rng[1]:
+            return "value sets: %s %s %s stays within %s" % (sorted(vals[0]), op, sorted(vals[1]), ty)
+    return None
+
+
 def discharge_by_guard(p, s):
     """Returns a reason string if a dominating guard makes the site unreachable/unfailing."""
     fn = s.fn
     if s.kind == "assert":
         k = s.what
+        v = _discharge_by_valueset(fn, s)
+        if v:
+            return v
         if k in ("RemainderByZero", "DivisionByZero"):
             l = _local_of(s.t["ops"][0])
             if l is None:
